@@ -1079,6 +1079,14 @@ def purity_pool():
          "target": H.name("t" * 40, "zone0", "ex"), "source": H.name("zone0", "ex"), "suffix": True},
         {"f": "rename_obj", "pkt": share, "target": H.name("u" * 63, "u" * 63, "u" * 63, "u" * 50), "source": H.name("ex"), "suffix": True},
         {"f": "synth", "pkt": [], "text": "ex. 3 IN SOA n.ex. " + "x" * 64 + ".ex. (1 2 3 4 5)"},
+        # near-identical inputs (equal up to letter case, equal length, one a prefix of the other): a cache keyed too
+        # coarsely on an earlier input shows up as a differing result
+        {"f": "name", "pkt": [], "text_bytes": H.L("WWW.Example.COM")}, {"f": "name", "pkt": [], "text_bytes": H.L("www.example.org")},
+        {"f": "name", "pkt": [], "text_bytes": H.L("www.example.com.")},
+        {"f": "synth", "pkt": [], "text": "eXaMpLe.CoM. 5 IN A 1.2.3.4"}, {"f": "synth", "pkt": [], "text": "example.com. 5 IN A 1.2.3.4"},
+        {"f": "synth", "pkt": [], "text": "example.com. 5 IN NS EXAMPLE.COM."}, {"f": "synth", "pkt": [], "text": "example.net. 5 IN A 1.2.3.4"},
+        {"f": "compress", "pkt": H.hdr(5, 0x8180, 1, 1, 0, 0) + H.name("Q", "EX") + [0, 1, 0, 1] + H.rr(H.name("h00", "ZONE0", "EX"), 1, 1, [1, 1, 1, 1])},
+        {"f": "parse", "pkt": H.base_packets()[4]}, {"f": "uncompress", "pkt": H.base_packets()[4]},
     ]
     for i, c in enumerate(pool):
         c["x"] = i
